@@ -140,10 +140,34 @@ def _stringy(t):
     return False
 
 
+def concat(xs):
+    """Ordered concatenation; adjacent string constants are merged so that
+    "a" + f"b{x}", f"ab{x}" and "ab" + str(x) are one term."""
+    flat = []
+    for x in xs:
+        if x[0] == 'concat':
+            flat.extend(x[1])
+        else:
+            flat.append(x)
+    out = []
+    for x in flat:
+        if x[0] == 'c' and isinstance(x[1], str):
+            if x[1] == '':
+                continue
+            if out and out[-1][0] == 'c' and isinstance(out[-1][1], str):
+                out[-1] = C(out[-1][1] + x[1])
+                continue
+        out.append(x)
+    if not out:
+        return C('')
+    if len(out) == 1:
+        return out[0]
+    return ('concat', tuple(out))
+
+
 def add(a, b):
     if _stringy(a) or _stringy(b):
-        xs = (a[1] if a[0] == 'concat' else (a,)) + (b[1] if b[0] == 'concat' else (b,))
-        return ('concat', xs)
+        return concat((a, b))
     ca, da = _to_lin(a)
     cb, db = _to_lin(b)
     d = dict(da)
@@ -582,10 +606,7 @@ def _rebuild(t):
     if k == 'attr':
         return attr(t[1], t[2])
     if k == 'concat':
-        acc = None
-        for x in t[1]:
-            acc = x if acc is None else add(acc, x)
-        return acc
+        return concat(t[1])
     return t
 
 
